@@ -1,8 +1,350 @@
-(** Props/C13.v — placeholder while the pipeline is brought up. *)
-From Coq Require Import ZArith List Bool.
-From NS Require Import Base.NoteSeq Model.TimeOps Proofs.TimeOps.
+(** Props/C13.v — C13: shifting, stretching, concatenating, repeating and
+    time-mapping move every event consistently.  Only statements, [exact], and
+    [Print Assumptions].
+
+    Vocabulary (defined in Proofs/TimeOps*.v, all executable or first-order):
+      [moved f s r]      the eight repeated fields of r are those of s, in order, each note/event with its
+                         time(s) replaced by [f time] and nothing else changed;
+      [same_rest s r]    total_quantized_steps, quantization_info, ticks_per_quarter and the opaque remainder agree;
+      [placed get mv ps c]  the events of field [get] of all pieces, piece i moved by c + (durations of pieces < i);
+      [tidy_*]           stable sort by time, then drop each event whose value equals its predecessor's;
+      [force]            the value in force at a time (scan of the time-ordered list);
+      [window_notes d]   notes starting in [0, d), cut at d, in start order;
+      [rect_fun xs S]    rectify's beat interpolation in units of 1/S beat.
+
+    The model follows note_seq with notes/C13-fix-1.diff and notes/C13-fix-2.diff applied; on the
+    unrepaired code the statements marked (F16) and (fix 2) are false and the check reports a
+    VIOLATION with a concrete input. *)
+From Coq Require Import ZArith List Bool Sorted.
+From NS Require Import Base.NoteSeq Model.TimeOps Proofs.TimeOps Proofs.TimeOpsTidy Proofs.TimeOpsConcat
+  Proofs.TimeOpsAdjust Proofs.TimeOpsExamples.
+Import ListNotations.
 Local Open Scope Z_scope.
 
-Theorem C13_shift_rejects_nonpositive : forall d s, d <= 0 -> shift d s = Err EValue.
-Proof. exact shift_rejects_nonpositive. Qed.
-Print Assumptions C13_shift_rejects_nonpositive.
+(** ** shift_sequence_times: every time + d, subsequence_info cleared, nothing else touched;
+       for ALL sequences and ALL positive shifts. *)
+Theorem C13_shift_spec : forall d s,
+  0 < d -> is_quantized s = false ->
+  exists r, shift d s = Ok r /\
+    moved (fun t => t + d) s r /\
+    map tp_qpm (s_tempos r) = map tp_qpm (s_tempos s) /\
+    s_total r = s_total s + d /\
+    s_sub r = (0, 0) /\
+    same_rest s r.
+Proof. exact shift_spec. Qed.
+Print Assumptions C13_shift_spec.
+
+Theorem C13_shift_rejections : forall d s e,
+  shift d s = Err e <->
+  (d <= 0 /\ e = EValue) \/ (0 < d /\ is_quantized s = true /\ e = EQuant).
+Proof. exact shift_error_iff. Qed.
+Print Assumptions C13_shift_rejections.
+
+Theorem C13_shift_keeps_well_formed : forall d s r, shift d s = Ok r -> seq_wf s -> seq_wf r.
+Proof. exact shift_wf. Qed.
+Print Assumptions C13_shift_keeps_well_formed.
+
+(** ** stretch_note_sequence: every time * fn/fd (section annotations included: F16), every qpm / (fn/fd),
+       nothing else touched; for ALL sequences and ALL positive factors fn/fd. *)
+Theorem C13_stretch_spec : forall fn fd s,
+  0 < fn -> 0 < fd -> is_quantized s = false ->
+  exists r, stretch fn fd s = Ok r /\
+    moved (mulf fn fd) s r /\
+    map tp_qpm (s_tempos r) = map (fun t => divf fn fd (tp_qpm t)) (s_tempos s) /\
+    s_total r = mulf fn fd (s_total s) /\
+    s_sub r = s_sub s /\
+    same_rest s r.
+Proof. exact stretch_spec. Qed.
+Print Assumptions C13_stretch_spec.
+
+(** [mulf]/[divf] are the exact product and quotient whenever these are representable on the tick grid. *)
+Theorem C13_stretch_times_exact : forall fn fd s t,
+  0 < fd -> stretch_exact fn fd s = true -> In t (all_times s) -> mulf fn fd t * fd = t * fn.
+Proof. exact stretch_exact_times. Qed.
+Print Assumptions C13_stretch_times_exact.
+
+Theorem C13_stretch_qpm_exact : forall fn fd s tp,
+  0 < fn -> stretch_exact fn fd s = true -> In tp (s_tempos s) -> divf fn fd (tp_qpm tp) * fn = tp_qpm tp * fd.
+Proof. exact stretch_exact_qpm. Qed.
+Print Assumptions C13_stretch_qpm_exact.
+
+Theorem C13_stretch_rejections : forall fn fd s e,
+  stretch fn fd s = Err e <-> is_quantized s = true /\ e = EQuant.
+Proof. exact stretch_error_iff. Qed.
+Print Assumptions C13_stretch_rejections.
+
+Theorem C13_stretch_order_preserving : forall fn fd a b,
+  0 <= fn -> 0 < fd -> a <= b -> mulf fn fd a <= mulf fn fd b.
+Proof. exact mulf_monotone. Qed.
+Print Assumptions C13_stretch_order_preserving.
+
+(** ** concatenate_sequences, for ALL lists of pieces (any length) with or without explicit durations:
+       every note and event of piece i is placed after the summed durations of the pieces before it, every
+       note (and text, control change, pitch bend, section annotation) is kept, tempo / time-signature / key
+       events go through the redundancy pass, total_time is where the last piece ends. *)
+Theorem C13_concat_spec : forall ps,
+  Forall piece_ok ps ->
+  exists r, concat_pairs ps = Ok r /\
+    s_notes r = placed s_notes note_t ps 0 /\
+    s_tempos r = tidy_tempos (placed s_tempos tempo_t ps 0) /\
+    s_tsigs r = tidy_tsigs (placed s_tsigs tsig_t ps 0) /\
+    s_ksigs r = tidy_ksigs (placed s_ksigs ksig_t ps 0) /\
+    s_texts r = placed s_texts text_t ps 0 /\
+    s_ccs r = placed s_ccs cc_t ps 0 /\
+    s_bends r = placed s_bends bend_t ps 0 /\
+    s_sects r = placed s_sects sect_t ps 0 /\
+    s_total r = end_time ps 0 0 /\
+    s_sub r = (0, 0).
+Proof. exact concat_pairs_spec. Qed.
+Print Assumptions C13_concat_spec.
+
+(** [placed] in words: e is there iff it is an event of some piece i moved by the sum of the durations before i. *)
+Theorem C13_concat_placement : forall (get : seq -> list note) mv ps cur e,
+  In e (placed get mv ps cur) <->
+  exists i p e0 off, nth_error ps i = Some p /\ In e0 (get (fst p)) /\
+                     off = cur + offset ps i /\ e = mv (fun t => t + off) e0.
+Proof. exact placed_notes_In. Qed.
+Print Assumptions C13_concat_placement.
+
+(** The two-list API of the Python function. *)
+Theorem C13_concat_api_no_durations : forall ss,
+  concatenate ss [] = concat_pairs (map (fun s => (s, None)) ss).
+Proof. exact concatenate_no_durations. Qed.
+Print Assumptions C13_concat_api_no_durations.
+
+Theorem C13_concat_api_durations : forall ss ds,
+  ds <> [] -> length ss = length ds -> concatenate ss ds = concat_pairs (combine ss (map Some ds)).
+Proof. exact concatenate_durations. Qed.
+Print Assumptions C13_concat_api_durations.
+
+Theorem C13_concat_rejects_length_mismatch : forall ss ds,
+  ds <> [] -> length ss <> length ds -> concatenate ss ds = Err EValue.
+Proof. exact concatenate_length_mismatch. Qed.
+Print Assumptions C13_concat_rejects_length_mismatch.
+
+Theorem C13_concat_rejects_short_duration : forall ps,
+  Forall (fun p => is_quantized (fst p) = false) ps -> existsb too_short ps = true ->
+  concat_pairs ps = Err EValue.
+Proof. exact concat_pairs_short. Qed.
+Print Assumptions C13_concat_rejects_short_duration.
+
+(** The redundancy pass (remove_redundant_data), for ANY event list, generic in the event kind:
+    it only drops; it never changes the value in force at any time; the event at a given place of the
+    time-ordered list is dropped exactly when the event just before it has the same value; what is left has
+    no two neighbours of equal value; the sort is a stable permutation. *)
+Theorem C13_tidy_sort_is_stable_permutation : forall (l : list tempo),
+  Permutation.Permutation (sort_by tp_time l) l /\ sorted_by tp_time (sort_by tp_time l) /\
+  forall k, filter (fun e => tp_time e =? k) (sort_by tp_time l) = filter (fun e => tp_time e =? k) l.
+Proof. exact tempo_sort_stable_permutation. Qed.
+Print Assumptions C13_tidy_sort_is_stable_permutation.
+
+Theorem C13_tidy_only_drops : forall (l : list tempo), subseq (tidy_tempos l) (sort_by tp_time l).
+Proof. exact tidy_tempos_subseq. Qed.
+Print Assumptions C13_tidy_only_drops.
+
+Theorem C13_tidy_tempo_in_force_unchanged : forall (l : list tempo) t,
+  force tp_time tp_qpm None (tidy_tempos l) t = force tp_time tp_qpm None (sort_by tp_time l) t.
+Proof. exact tidy_tempos_force. Qed.
+Print Assumptions C13_tidy_tempo_in_force_unchanged.
+
+Theorem C13_tidy_time_signature_in_force_unchanged : forall (l : list tsig) t,
+  force ts_time (fun e => (ts_num e, ts_den e)) None (tidy_tsigs l) t =
+  force ts_time (fun e => (ts_num e, ts_den e)) None (sort_by ts_time l) t.
+Proof. exact tidy_tsigs_force. Qed.
+Print Assumptions C13_tidy_time_signature_in_force_unchanged.
+
+Theorem C13_tidy_key_in_force_unchanged : forall (l : list ksig) t,
+  force ks_time (fun e => (ks_key e, ks_mode e)) None (tidy_ksigs l) t =
+  force ks_time (fun e => (ks_key e, ks_mode e)) None (sort_by ks_time l) t.
+Proof. exact tidy_ksigs_force. Qed.
+Print Assumptions C13_tidy_key_in_force_unchanged.
+
+Theorem C13_tidy_drops_exactly_repeats : forall (p : tempo) l x l2,
+  dedup tempo_same ((p :: l) ++ x :: l2) =
+  dedup tempo_same (p :: l) ++ (if tempo_same (last l p) x then [] else [x]) ++ drop_rep tempo_same x l2.
+Proof. exact tempo_dedup_drops_exactly_repeats. Qed.
+Print Assumptions C13_tidy_drops_exactly_repeats.
+
+Theorem C13_tidy_leaves_nothing_redundant : forall (l : list tempo) a b pre post,
+  tidy_tempos l = pre ++ a :: b :: post -> tp_qpm a <> tp_qpm b.
+Proof. exact tidy_tempos_adjacent. Qed.
+Print Assumptions C13_tidy_leaves_nothing_redundant.
+
+(** ** repeat_sequence_to_duration: n = ceil(d / sd) is the least number of copies covering d; the result is
+       the concatenation of n copies cut at d (notes starting before d, ends clipped, state events windowed). *)
+Theorem C13_repeat_spec : forall s d osd,
+  is_quantized s = false -> 0 < s_total s <= eff_dur s osd -> 0 < d ->
+  let sd := eff_dur s osd in
+  let n := Z.to_nat (ceil_div d sd) in
+  let ps := repeat (s, Some sd) n in
+  (n >= 1)%nat /\ (Z.of_nat n - 1) * sd < d <= Z.of_nat n * sd /\
+  exists r, repeat_to_duration s d osd = Ok r /\
+    s_notes r = window_notes d (placed s_notes note_t ps 0) /\
+    s_tempos r = window_state tp_time tempo_t d (tidy_tempos (placed s_tempos tempo_t ps 0)) /\
+    s_tsigs r = window_state ts_time tsig_t d (tidy_tsigs (placed s_tsigs tsig_t ps 0)) /\
+    s_ksigs r = window_state ks_time ksig_t d (tidy_ksigs (placed s_ksigs ksig_t ps 0)) /\
+    s_sects r = placed s_sects sect_t ps 0 /\
+    s_total r = max_end (s_notes r) /\ s_total r <= d /\
+    s_sub r = (0, 0).
+Proof. exact repeat_spec. Qed.
+Print Assumptions C13_repeat_spec.
+
+Theorem C13_repeat_copy_k_sits_k_durations_later : forall s sd n (e : note),
+  In e (placed s_notes note_t (repeat (s, Some sd) n) 0) <->
+  exists k e0 off, (k < n)%nat /\ In e0 (s_notes s) /\ off = Z.of_nat k * sd /\ e = note_t (fun t => t + off) e0.
+Proof. exact repeat_notes_In. Qed.
+Print Assumptions C13_repeat_copy_k_sits_k_durations_later.
+
+Theorem C13_repeat_cut_keeps_exactly_notes_starting_before_d : forall d l n',
+  In n' (window_notes d l) <->
+  exists n, In n l /\ 0 <= n_start n < d /\ n' = note_with_times n (n_start n) (Z.min (n_end n) d).
+Proof. exact window_notes_In. Qed.
+Print Assumptions C13_repeat_cut_keeps_exactly_notes_starting_before_d.
+
+Theorem C13_repeat_rejects_zero_duration : forall s d osd,
+  eff_dur s osd = 0 -> repeat_to_duration s d osd = Err EZeroDiv.
+Proof. exact repeat_zero_duration. Qed.
+Print Assumptions C13_repeat_rejects_zero_duration.
+
+Theorem C13_repeat_rejects_nonpositive_target : forall s d osd,
+  0 < eff_dur s osd -> d <= 0 -> repeat_to_duration s d osd = Err EValue.
+Proof. exact repeat_nothing_requested. Qed.
+Print Assumptions C13_repeat_rejects_nonpositive_target.
+
+(** ** adjust_notesequence_times, for ALL sequences and ALL functions f : Z -> Z (not only the
+       piecewise-linear tables the tests use): accepted iff no retained note is reversed or starts before 0
+       and no event (section annotations included: F16) lands before 0; then every retained note and
+       every event carries f(time), exactly the collapsed notes are dropped and counted, tempos are deleted. *)
+Theorem C13_adjust_spec : forall f s,
+  adjust_rejects f s = false ->
+  exists r, adjust f None s = Ok (r, Z.of_nat (length (filter (collapsed f) (s_notes s)))) /\
+    s_notes r = map (note_t f) (filter (kept f) (s_notes s)) /\
+    s_tempos r = [] /\
+    s_tsigs r = map (tsig_t f) (s_tsigs s) /\
+    s_ksigs r = map (ksig_t f) (s_ksigs s) /\
+    s_texts r = map (text_t f) (s_texts s) /\
+    s_ccs r = map (cc_t f) (s_ccs s) /\
+    s_bends r = map (bend_t f) (s_bends s) /\
+    s_sects r = map (sect_t f) (s_sects s) /\
+    s_total r = max_end (s_notes r) /\
+    s_sub r = s_sub s /\ same_rest s r.
+Proof. exact adjust_spec. Qed.
+Print Assumptions C13_adjust_spec.
+
+Theorem C13_adjust_rejections : forall f s e,
+  adjust f None s = Err e <-> adjust_rejects f s = true /\ e = EAdjust.
+Proof. exact adjust_rejects_iff. Qed.
+Print Assumptions C13_adjust_rejections.
+
+Theorem C13_adjust_accepts_monotone_maps : forall f s,
+  (forall a b, a <= b -> f a <= f b) -> (forall t, 0 <= t -> 0 <= f t) -> seq_wf s ->
+  adjust_rejects f s = false.
+Proof. exact adjust_monotone_ok. Qed.
+Print Assumptions C13_adjust_accepts_monotone_maps.
+
+(** ** rectify_beats: the beat map is non-decreasing everywhere (also after total_time: fix 2), sends
+       beat i to i beats, is exactly linear in between; the beat list is strictly increasing; a
+       well-formed sequence with a beat is never rejected and is adjusted by that map. *)
+Theorem C13_rectify_map_monotone : forall xs S t1 t2,
+  0 <= S -> increasing xs -> t1 <= t2 -> rect_fun xs S t1 <= rect_fun xs S t2.
+Proof. exact rect_fun_monotone. Qed.
+Print Assumptions C13_rectify_map_monotone.
+
+Theorem C13_rectify_beat_i_to_i_beats : forall xs S i x,
+  increasing xs -> nth_error xs i = Some x -> rect_fun xs S x = Z.of_nat i * S.
+Proof. exact rect_fun_beat. Qed.
+Print Assumptions C13_rectify_beat_i_to_i_beats.
+
+Theorem C13_rectify_linear_between_beats : forall xs i x y t,
+  increasing xs -> nth_error xs i = Some x -> nth_error xs (Datatypes.S i) = Some y -> x <= t < y ->
+  (y - x) * (rect_fun xs (prod (deltas xs)) t - Z.of_nat i * prod (deltas xs)) = (t - x) * prod (deltas xs).
+Proof. exact rect_fun_linear. Qed.
+Print Assumptions C13_rectify_linear_between_beats.
+
+Theorem C13_rectify_spec : forall bpm s,
+  seq_wf s -> 0 <= s_total s -> is_quantized s = false -> beat_times s <> [] -> bpm <> 0 ->
+  let xs := rect_beats s in
+  let S := prod (deltas xs) in
+  let f := rect_fun xs S in
+  increasing xs /\ 0 < S /\
+  exists r, rectify bpm s = Ok (r, xs, S) /\
+    s_notes r = map (note_t f) (filter (kept f) (s_notes s)) /\
+    s_tempos r = [mkTempo 0 bpm] /\
+    s_tsigs r = [] /\
+    s_ksigs r = map (ksig_t f) (s_ksigs s) /\
+    s_texts r = map (text_t f) (s_texts s) /\
+    s_ccs r = map (cc_t f) (s_ccs s) /\
+    s_bends r = map (bend_t f) (s_bends s) /\
+    s_sects r = map (sect_t f) (s_sects s) /\
+    s_total r = max_end (s_notes r) /\
+    s_sub r = s_sub s /\ same_rest s r.
+Proof. exact rectify_spec. Qed.
+Print Assumptions C13_rectify_spec.
+
+Theorem C13_rectify_rejections : forall bpm s e,
+  rectify bpm s = Err e ->
+  (is_quantized s = true /\ e = EQuant) \/
+  (is_quantized s = false /\ beat_times s = [] /\ e = ERectify) \/
+  (is_quantized s = false /\ beat_times s <> [] /\ bpm = 0 /\ e = EZeroDiv) \/
+  (is_quantized s = false /\ beat_times s <> [] /\ bpm <> 0 /\ e = EAdjust /\
+   adjust_rejects (rect_fun (rect_beats s) (prod (deltas (rect_beats s)))) s = true).
+Proof. exact rectify_errors. Qed.
+Print Assumptions C13_rectify_rejections.
+
+(** ** Non-vacuity: the hypotheses are satisfiable by sequences with every event kind, and the
+       interesting branches (redundant tempo dropped, note collapsed, map rejected, time after the last beat) occur. *)
+Example C13_shift_nonvacuous :
+  is_quantized ex_seq = false /\
+  exists r, shift 10 ex_seq = Ok r /\ map sa_time (s_sects r) = [14] /\ map pb_time (s_bends r) = [14] /\
+            map n_end (s_notes r) = [18] /\ s_total r = 18 /\ s_sub r = (0, 0).
+Proof. exact shift_example. Qed.
+Print Assumptions C13_shift_nonvacuous.
+
+Example C13_stretch_nonvacuous :
+  is_quantized ex_seq = false /\ stretch_exact 3 1 ex_seq = true /\ stretch_exact 3 2 ex_seq = false /\
+  exists r, stretch 3 1 ex_seq = Ok r /\ map sa_time (s_sects r) = [12] /\
+            map tp_time (s_tempos r) = [12] /\ map tp_qpm (s_tempos r) = [40] /\ s_total r = 24.
+Proof. exact stretch_example. Qed.
+Print Assumptions C13_stretch_nonvacuous.
+
+Example C13_concat_nonvacuous :
+  let ps := [(ex_piece 120 [], Some 10); (ex_piece 120 [mkTempo 4 60], Some 8); (ex_piece 60 [], Some 8)] in
+  Forall piece_ok ps /\
+  exists r, concat_pairs ps = Ok r /\
+    map n_start (s_notes r) = [0; 10; 18] /\
+    s_tempos r = [mkTempo 0 120; mkTempo 14 60] /\
+    map sa_time (s_sects r) = [1; 11; 19] /\ s_total r = 26.
+Proof. exact concat_example. Qed.
+Print Assumptions C13_concat_nonvacuous.
+
+Example C13_repeat_nonvacuous :
+  exists r, repeat_to_duration ex_seq 21 (Some 10) = Ok r /\
+    map (fun n => (n_start n, n_end n)) (s_notes r) = [(4, 8); (14, 18)] /\ s_total r = 18 /\
+    ceil_div 21 10 = 3.
+Proof. exact repeat_example. Qed.
+Print Assumptions C13_repeat_nonvacuous.
+
+Example C13_adjust_nonvacuous :
+  (forall a b, a <= b -> ex_f a <= ex_f b) /\ (forall t, 0 <= t -> 0 <= ex_f t) /\
+  let s := mkSeq [mkNote 60 80 4 8 0 0 false 0 0 0; mkNote 61 80 5 6 0 0 false 0 0 0] [mkTempo 0 120] [] []
+                 [] [] [] [mkSect 5 7] 8 0 0 0 (0, 0) 220 0 in
+  exists r, adjust ex_f None s = Ok (r, 1) /\
+    map (fun n => (n_pitch n, n_start n, n_end n)) (s_notes r) = [(60, 8, 16)] /\
+    s_sects r = [mkSect 8 7] /\ s_tempos r = [] /\ s_total r = 16.
+Proof. exact adjust_example. Qed.
+Print Assumptions C13_adjust_nonvacuous.
+
+Example C13_adjust_rejection_nonvacuous :
+  adjust_rejects (fun t => 10 - t) ex_seq = true /\ adjust (fun t => 10 - t) None ex_seq = Err EAdjust /\
+  adjust_rejects (fun t => t - 5) ex_seq = true.
+Proof. exact adjust_reject_example. Qed.
+Print Assumptions C13_adjust_rejection_nonvacuous.
+
+Example C13_rectify_nonvacuous :
+  seq_wf ex_seq /\ beat_times ex_seq <> [] /\ rect_beats ex_seq = [0; 2; 5; 8] /\
+  prod (deltas (rect_beats ex_seq)) = 18 /\
+  map (rect_fun [0; 2; 5; 8] 18) [0; 1; 2; 3; 5; 8; 9; 100] = [0; 9; 18; 24; 36; 54; 54; 54] /\
+  exists r, rectify 120 ex_seq = Ok (r, [0; 2; 5; 8], 18) /\
+    map (fun n => (n_start n, n_end n)) (s_notes r) = [(30, 54)] /\ s_tempos r = [mkTempo 0 120].
+Proof. exact rectify_example. Qed.
+Print Assumptions C13_rectify_nonvacuous.
